@@ -624,6 +624,8 @@ class Exec:
         if isinstance(v, FloatVal):
             from . import builtins_impl
             return builtins_impl.float_real(v) != 0
+        if type(v).__name__ == "Generator" or isinstance(v, GenObj):
+            return True          # an iterator / generator object is always true, also when it will yield nothing
         if is_sym_int(v):
             return v != 0
         if is_sym_real(v):
